@@ -13,6 +13,13 @@
 // app.GetExitCode and reports exit status, number of printed annotations and whether a message
 // was printed.  The Lean model answers the same line (`err c|d <notation>`) with its `GoErr`
 // model: the classification of real errors is compared, not assumed.
+//
+// Two leaves are not constructed by the probe but PRODUCED by bufmodule on sources with a planted
+// problem (an in-memory module, bufmoduletesting): `F` = what FileInfo.ProtoFileImports() returns
+// for a file whose header statement `import ;` the pre-compile scan (fastscan) rejects - as coded
+// a FileAnnotationSet with one annotation, so that a controller method prints it and the status
+// is 100; `N` = what Module.ModuleDeps() returns for a file importing a file that does not exist
+// - as coded an *ImportNotExistError (status 100 through wrapError).
 package main
 
 import (
@@ -156,6 +163,10 @@ func (p *probeParser) err() error {
 		return &bufmodule.ImportNotExistError{}
 	case 'T':
 		return errors.New("x")
+	case 'F':
+		return realScanError()
+	case 'N':
+		return realImportNotExist()
 	case 'Z':
 		return errors.New("")
 	case 'A':
@@ -186,6 +197,42 @@ func (p *probeParser) err() error {
 	}
 	panic("bad error notation: " + p.s)
 }
+
+const probeGood = "syntax = \"proto3\";\n\npackage p;\n\nmessage A {\n  string x = 1;\n}\n"
+
+func probeModule(bad string) bufmodule.Module {
+	moduleSet, err := bufmoduletesting.NewModuleSetForPathToData(map[string][]byte{"a.proto": []byte(probeGood), "b.proto": []byte(bad)})
+	if err != nil {
+		panic("probe module set: " + err.Error())
+	}
+	modules := moduleSet.Modules()
+	if len(modules) != 1 {
+		panic("probe module set: expected one module")
+	}
+	return modules[0]
+}
+
+// the error the header scan of a .proto file returns for 'import ;'
+var realScanError = sync.OnceValue(func() error {
+	fileInfo, err := probeModule("syntax = \"proto3\";\n\npackage p;\n\nimport ;\n").StatFileInfo(context.Background(), "b.proto")
+	if err != nil {
+		panic("probe StatFileInfo: " + err.Error())
+	}
+	_, err = fileInfo.ProtoFileImports()
+	if err == nil {
+		panic("the header scan accepted an empty import statement")
+	}
+	return err
+})
+
+// the error ModuleDeps() returns for an import that no module has
+var realImportNotExist = sync.OnceValue(func() error {
+	_, err := probeModule("syntax = \"proto3\";\n\npackage p;\n\nimport \"nope/missing.proto\";\n").ModuleDeps()
+	if err == nil {
+		panic("ModuleDeps accepted an import that does not exist")
+	}
+	return err
+})
 
 func probeOne(via, notation string) (out string) {
 	defer func() {
@@ -246,8 +293,9 @@ func buildErrProbe(run *hx.Run) (string, error) {
 	}
 	imports := map[string]string{
 		"bufio": "bufio", "bytes": "bytes", "context": "context", "errors": "errors", "fmt": "fmt", "os": "os",
-		"strconv": "strconv", "strings": "strings",
+		"strconv": "strconv", "strings": "strings", "sync": "sync",
 		"connect":     "connectrpc.com/connect",
+		"bufmoduletesting": "github.com/bufbuild/buf/private/bufpkg/bufmodule/bufmoduletesting",
 		"app":         "github.com/bufbuild/buf/private/pkg/app",
 		"syserror":    "github.com/bufbuild/buf/private/pkg/syserror",
 		"bufctl":      "github.com/bufbuild/buf/private/buf/bufctl",
@@ -316,7 +364,7 @@ func buildErrProbe(run *hx.Run) (string, error) {
 // error notations: every tree over the leaves with up to two wrappers, joins of the
 // interesting pairs, and random deeper ones
 func genErrNotations(r *hx.Rand, nRandom int) []string {
-	leaves := []string{"A1", "A3", "I", "T", "Z"}
+	leaves := []string{"A1", "A3", "I", "T", "Z", "F", "N"}
 	wrap := func(w, e string) string { return w + "(" + e + ")" }
 	wrappers := []string{"W", "S", "C", "K", "P100", "P1", "P3", "P0"}
 	seen := map[string]bool{}
@@ -418,7 +466,12 @@ func errValueCases(run *hx.Run, r *hx.Rand, idx *int, do func(func())) {
 			if exit == 0 {
 				run.Fail(hx.OracleFailure{Class: "exit-zero-mismatch", What: fmt.Sprintf("error %s via %s: exit 0 for a non-nil error", qq.n, qq.via), Input: qq, Replay: replay})
 			}
-			plainImport := regexp.MustCompile(`^(W\(|J\(|[IT,)])*$`).MatchString(qq.n) && strings.Contains(qq.n, "I")
+			plainImport := regexp.MustCompile(`^(W\(|J\(|[INT,)])*$`).MatchString(qq.n) && strings.ContainsAny(qq.n, "IN")
+			// a problem the header scan finds in the user's sources, returned by a controller method
+			// below plain wrappers: printed as an annotation, status 100, no Failure line
+			if via, n := qq.via, qq.n; via == "c" && regexp.MustCompile(`^(W\()*F\)*$`).MatchString(n) && (exit != 100 || printed == 0 || failure) {
+				run.Fail(hx.OracleFailure{Class: "source-problem-not-annotated", What: fmt.Sprintf("error %s via a controller method is what the header scan of a .proto file with `import ;` returns, but exit=%d annotations printed=%d failure line=%v (want 100 / 1 / none)", n, exit, printed, failure), Input: qq, Replay: replay})
+			}
 			if plainImport && (exit != 100 || !failure) {
 				run.Fail(hx.OracleFailure{Class: "import-not-found-verdict", What: fmt.Sprintf("error %s via %s holds an ImportNotExistError below plain wrappers but exit=%d failure line=%v", qq.n, qq.via, exit, failure), Input: qq, Replay: replay})
 			}
